@@ -42,6 +42,10 @@
 extern "C" {
 #endif
 
+/* values of the URCU_VERIF source hooks (owned by vrt; one build serves all values) */
+extern unsigned long vrt_param_qs_attempts, vrt_param_wait_attempts, vrt_param_defer_queue_size,
+	vrt_param_min_partition_order, vrt_param_count_commit_order, vrt_param_init_reader_count;
+
 /* ---- entry points implemented in vrt.c ------------------------------------------------------ */
 void vrt_fence(void);
 void vrt_spin_hint(void);
